@@ -145,6 +145,42 @@ func runC06(c *Ctx) {
 	ruleHasBodyGate(c, "R06.0")
 	ruleContentTypeAccessorParses(c, "R06.1")
 	ruleRoutableAPIDelegates(c, "R06.4", "ConsumersFor", "DefaultConsumes")
+	// the consumer of a request is chosen by the content-type stage alone (from the request's parsed media type):
+	// nothing else pre-selects MatchedRoute.Consumer — the untyped stage keeps a consumer it finds already set
+	for _, fn := range p.LibFuncs("rt/middleware") {
+		for _, st := range fieldStores(fn, "rt/middleware.MatchedRoute", "Consumer") {
+			if st.Parent() != fn {
+				continue
+			}
+			allowedW := func(n string) bool {
+				return n == "(*rt/middleware.validation).contentType" || n == "(*rt/middleware.Context).BindValidRequest"
+			}
+			okW := allowedW(fnName(fn))
+			if !okW && isTransparent(fn) {
+				okW = true
+				for _, rt := range rootsOf(fn) {
+					if !allowedW(fnName(rt)) {
+						okW = false
+					}
+				}
+			}
+			if !okW && isNilConst(st.Val) {
+				okW = true // clearing it decides nothing
+			}
+			if !okW {
+				// the gate's code living elsewhere (inlined into its caller): what is stored is route.Consumers[<parsed media type>]
+				okW, _ = allOrigins(st.Val, func(o Origin) bool {
+					lk, isLk := o.V.(*ssa.Lookup)
+					if !isLk {
+						return false
+					}
+					okK, _ := allOrigins(lk.Index, oCall(0, "rt.ContentType"), oCall(0, "(*rt/middleware.Context).ContentType"))
+					return okK
+				})
+			}
+			c.obD("R06.3", st, "consumer-chosen-by-the-content-type-stage-only", okW, "MatchedRoute.Consumer is written by the two content-type gates only, from the media type of the request at hand", short(fn.String())+" pre-selects the route's consumer: the gate keeps it, whatever media type the body has")
+		}
+	}
 	ruleFreshMatchedRoute(c, "R06.3", "the matched route — whose Consumer field the content-type stage fills only when it is still empty — is allocated for one lookup: the consumer picked for one request's media type never decodes another request's body", "the route returned by Lookup outlives the request (the Consumer chosen for an earlier request would be kept)")
 
 	type gate struct {
@@ -440,6 +476,8 @@ func runC06(c *Ctx) {
 			case oCall(0, "mime.ParseMediaType")(o):
 				sawExact = true
 				form = "exact"
+			case oConstString("")(o):
+				// a candidate left unset (`var typeWildcard string`, filled only when the value has the type/subtype shape)
 			default:
 				bo, ok := o.V.(*ssa.BinOp)
 				if s, isS := "", false; ok {
